@@ -1,5 +1,7 @@
 CONSTANTS Seed = 0
-  All3 = FALSE
+  Rest = TRUE
+  A3Part = 0
+  A3Parts = 1
   KFlags = {"O_CREAT","O_EXCL","O_TRUNC","O_APPEND","O_NOFOLLOW","O_DIRECTORY"}
   KKinds = {1}
   AForests = {1}
